@@ -95,7 +95,7 @@ func c06Run(c *core.Ctx, scn stopScn, h *hist.History, l *hist.Layout, tables []
 	}
 	r := c.Rng(core.StrID("c06run"), uint64(scn.Hist), core.Hash64([]byte(fmt.Sprint(scn.Spec))), uint64(scn.Rep))
 	errFirst := (scn.Hist+spec.At+scn.Rep)%2 == 0
-	ob := runStop(c, s, l, start, scn, attemptOpts{ErrorCalls: 1, Leftovers: !errFirst, ErrorFirst: errFirst}, r)
+	ob := runStop(c, s, l, start, scn, attemptOpts{ErrorCalls: 1, Leftovers: !errFirst, ErrorFirst: errFirst, InlineError: errFirst}, r)
 	res := ob.Res
 	c.Case(core.HashAdd(layoutHash(l), []byte(fmt.Sprint(scn.Spec, scn.Rep))), ob.reached())
 	if res.Verdict != run.Returned {
